@@ -196,9 +196,82 @@ def run_corpus(ctx: Ctx) -> None:
                 ctx.known_hit(KNOWN_ID)
 
 
+def run_encode_agreement(ctx: Ctx, drv: Optional[Driver]) -> None:
+    """theorem `encodeSilent_eq_verdict` (all models): the encoder's child loop reports a children error
+    for exactly the child sequences the validator's child loop rejects.  On the real code: data built
+    from (model, word) is encoded in lax mode with the lossless JsonML converter; `no children error`
+    must coincide with `the same children are valid for the model`; on the driver: es == m."""
+    import xmlschema
+    from xmlschema.validators.exceptions import XMLSchemaChildrenValidationError
+    nsmap = {'t': cm.TNS, 'o': cm.ONS}
+    rng = ctx.rng
+    for v11 in (False, True):
+        models = [cm.random_model(rng, ['a', 'b', 'c', 'h'], v11=v11, max_depth=2) for _ in range(ctx.pick(40, 600))]
+        models += fragment_models(ctx)[:ctx.pick(30, 400)]
+        for i in range(0, len(models), 40):
+            if ctx.time_left() < 60:
+                return
+            batch = models[i:i + 40]
+            schema = cm.build_schema(batch, v11)
+            reqs, pend = [], []
+            for k, ast in enumerate(batch):
+                xe = schema.elements[f'm{k}']
+                group = xe.type.content
+                if xe.type.errors or group.errors or any(c.errors for c in group.iter_components()):
+                    continue
+                if cm.upa_ok(ast, v11=v11) is not True:
+                    continue
+                intro = cm.Introspector(group)
+                if intro.glue:
+                    continue
+                alpha = [x for x in cm.alphabet(ast) if x != 'q'] or ['a']
+                words = cm.word_set(rng, ast, alpha + (['c'] if 'c' not in alpha else []), 2, 6, 14)[:30]
+                impl = []
+                for w in words:
+                    data = [f't:m{k}'] + [[('o:z' if x == 'o' else 't:' + cm.SYMS[x][1]), 'x'] for x in w]
+                    try:
+                        _, errs = schema.encode(data, path=f't:m{k}', converter=xmlschema.JsonMLConverter,
+                                                validation='lax', namespaces=nsmap)
+                    except Exception as e:   # noqa
+                        impl.append({'raised': type(e).__name__})
+                        continue
+                    silent = not any(isinstance(e, XMLSchemaChildrenValidationError) for e in errs)
+                    impl.append({'silent': silent, 'valid': xe.is_valid(cm.instance(k, w))})
+                reqs.append({'n': len(intro.objs), 'model': intro.json, 'words': [cm.word_json(w) for w in words], 'oc': None})
+                pend.append((ast, words, impl))
+            answers = drv.query(reqs) if drv is not None and reqs else [None] * len(reqs)
+            for (ast, words, impl), ans in zip(pend, answers):
+                for t, w in enumerate(words):
+                    im = impl[t]
+                    case = {'v': '1.1' if v11 else '1.0', 'encode-agreement': True, 'model': cm.show(ast), 'ast': ast,
+                            'word': ''.join(w)}
+                    ctx.case(case, bool(w), tag='exact-encode/' + case['v'])
+                    if 'raised' in im:
+                        ctx.count('exact-encode:raised:' + im['raised'])
+                        continue
+                    ctx.count('exact-encode:silent=%s/valid=%s' % (im['silent'], im['valid']))
+                    if im['valid'] and not im['silent']:
+                        ctx.failure('strict encode is not complete: the validator accepts the children, the encoder '
+                                    'reports a children error', case, im)
+                    if im['silent'] and not im['valid'] and not (ast[1] == 'choice' and not ast[4] and ast[2] > 0):
+                        ctx.failure('encode reported no children error but the children are not valid', case, im)
+                    if ans is None or 'err' in ans:
+                        continue
+                    a = ans['r'][t]
+                    ctx.traces += 1
+                    if a['f'] or a['ef']:
+                        continue
+                    if a['es'] != a['m']:
+                        ctx.mismatch('theorem instance: encodeSilent ≠ verdict on the driver', case, a['m'], a['es'])
+                    if a['es'] != im['silent'] or a['m'] != im['valid']:
+                        ctx.mismatch('child loops (decode/encode) port vs implementation', case, im,
+                                     {'silent': a['es'], 'valid': a['m']})
+
+
 def run_exact(ctx: Ctx, drv: Optional[Driver]) -> None:
     run_corpus(ctx)
     run_fragment(ctx, drv)
+    run_encode_agreement(ctx, drv)
 
 
 def replay_exact(ctx: Ctx, case: dict) -> int:
